@@ -41,6 +41,13 @@ type Clause struct {
 	Line  int
 }
 
+// GhostAt: a ghost variable assigned at a program point of the function under contract.
+type GhostAt struct {
+	Anchor, Name string
+	Expr         ast.Expr
+	Src          string
+}
+
 type LoopSpec struct {
 	Var         string // controlling variable (phi name) used to find the loop; ordinal is the fallback
 	Ordinal     int
@@ -61,10 +68,11 @@ type Contract struct {
 	Trusted       bool
 	Lets          []Clause // Label = name
 	Requires      []Clause
-	Locals        []string // local variable names in declaration order when the contract was written (rename detection)
-	YieldRequires []Clause // must hold whenever the sequence closure calls yield (what may be delivered)
-	ClosureInv    []Clause // holds between complete calls of a range-over-func body closure (see iteratorCall)
-	Captures      []Clause // facts about captured variables: proved where the closure is created, assumed at its entry
+	Locals        []string  // local variable names in declaration order when the contract was written (rename detection)
+	YieldRequires []Clause  // must hold whenever the sequence closure calls yield (what may be delivered)
+	GhostAt       []GhostAt // ghost_at "<source text>" name = expr: evaluated just before the statement whose line contains the text
+	ClosureInv    []Clause  // holds between complete calls of a range-over-func body closure (see iteratorCall)
+	Captures      []Clause  // facts about captured variables: proved where the closure is created, assumed at its entry
 	Ensures       []Clause
 	Assigns       []string
 	HasAssigns    bool
@@ -112,7 +120,7 @@ type ContractFile struct {
 	Lemmas    []*Lemma
 }
 
-var kwRe = regexp.MustCompile(`^(func|mode|inline|trusted|param|let|requires|ensures|assigns|loop|invariant|modifies|decreases|rel|chain|assume_at_call|pathkey|spec|lemma|opt|captures|closure_inv|locals|yield_requires|ghost|exit_ensures)\b`)
+var kwRe = regexp.MustCompile(`^(func|mode|inline|trusted|param|let|requires|ensures|assigns|loop|invariant|modifies|decreases|rel|chain|assume_at_call|pathkey|spec|lemma|opt|captures|closure_inv|locals|yield_requires|ghost|exit_ensures|ghost_at)\b`)
 
 var unknownDirRe = regexp.MustCompile(`^[a-z_]+\s+[A-Za-z_(\[!*"0-9]`)
 
@@ -433,6 +441,17 @@ func ParseContracts(path string) (*ContractFile, error) {
 					}
 				}
 				cur.Loops[n] = curLoop
+			case "ghost_at":
+				// ghost_at "text" name = expr
+				m := regexp.MustCompile(`^"([^"]+)"\s+([A-Za-z_][A-Za-z0-9_]*)\s*=\s*(.+)$`).FindStringSubmatch(rest)
+				if m == nil {
+					return nil, fail("ghost_at \"<source text>\" <name> = <expr>")
+				}
+				e, err := parse(m[3])
+				if err != nil {
+					return nil, err
+				}
+				cur.GhostAt = append(cur.GhostAt, GhostAt{Anchor: strings.ReplaceAll(m[1], " ", ""), Name: m[2], Expr: e, Src: rest})
 			case "ghost":
 				if curLoop == nil {
 					return nil, fail("ghost outside loop")
